@@ -191,7 +191,13 @@ pub fn decode(t: &mut Tape) -> Case {
                     let c = g.cond();
                     let t1 = target(&mut g);
                     let t2 = target(&mut g);
-                    vec![jmp(jt, Jmp::CBranch { target: t1, condition: c }), jmp(jt2, Jmp::Branch(t2))]
+                    match g.t.below(12) {
+                        // conditional return / conditional indirect jump: the second jump of the block is not a direct branch
+                        // (through a link-register-like, non-parameter register)
+                        0 => vec![jmp(jt, Jmp::CBranch { target: t1, condition: c }), jmp(jt2, Jmp::Return(evar(&var("RBX", 8))))],
+                        1 => vec![jmp(jt, Jmp::CBranch { target: t1, condition: c }), jmp(jt2, Jmp::BranchInd(evar(&g.reg())))],
+                        _ => vec![jmp(jt, Jmp::CBranch { target: t1, condition: c }), jmp(jt2, Jmp::Branch(t2))],
+                    }
                 }
                 7 => {
                     // x86-style return
@@ -298,6 +304,18 @@ fn add_use(d: &mut Demand, killed: &BTreeSet<String>, e: &Expression, kind: &'st
 }
 
 /// Upward-exposed uses of one block (gen) and the registers it defines (kill).
+thread_local! {
+    /// When set (demand restricted to paths that reach a return), the target expression of an indirect jump that is the
+    /// second jump of its block and has no target hints does not count: it is only evaluated on a path that leaves the
+    /// function's known control flow.
+    static ONLY_RETURN_PATHS: std::cell::Cell<bool> = const { std::cell::Cell::new(false) };
+}
+thread_local! {
+    /// When set, the condition of a conditional jump that is followed by a `Return` in the same block (conditional
+    /// return) does not count as a use (see the open finding about callers of such functions).
+    static SKIP_COND_BEFORE_RETURN: std::cell::Cell<bool> = const { std::cell::Cell::new(false) };
+}
+
 fn block_gen_kill(project: &Project, b: &Term<Blk>, params: &BTreeSet<String>, callee_demand: &CalleeDemand) -> (Demand, BTreeSet<String>) {
     let mut gen: Demand = BTreeMap::new();
     let mut killed: BTreeSet<String> = BTreeSet::new();
@@ -322,8 +340,18 @@ fn block_gen_kill(project: &Project, b: &Term<Blk>, params: &BTreeSet<String>, c
     let has_hints = !b.term.indirect_jmp_targets.is_empty();
     for j in &b.term.jmps {
         match &j.term {
-            Jmp::CBranch { condition, .. } => add_use(&mut gen, &killed, condition, "cbranch-condition"),
-            Jmp::BranchInd(e) => add_use(&mut gen, &killed, e, if has_hints { "branchind-target-with-hints" } else { "branchind-target-without-hints" }),
+            Jmp::CBranch { condition, .. } => {
+                let before_return = matches!(b.term.jmps.get(1).map(|j| &j.term), Some(Jmp::Return(_)));
+                if !(before_return && SKIP_COND_BEFORE_RETURN.with(|c| c.get())) {
+                    add_use(&mut gen, &killed, condition, "cbranch-condition");
+                }
+            }
+            Jmp::BranchInd(e) => {
+                let second_without_hints = b.term.jmps.len() == 2 && !has_hints;
+                if !(second_without_hints && ONLY_RETURN_PATHS.with(|c| c.get())) {
+                    add_use(&mut gen, &killed, e, if has_hints { "branchind-target-with-hints" } else { "branchind-target-without-hints" });
+                }
+            }
             Jmp::Return(e) => add_use(&mut gen, &killed, e, "return-target"),
             Jmp::CallInd { target, return_ } => {
                 add_use(&mut gen, &killed, target, if return_.is_some() { "callind-target-returning" } else { "callind-target-not-returning" });
@@ -514,7 +542,9 @@ pub fn demanded(project: &Project, sub: &Term<Sub>, params: &BTreeSet<String>, c
 fn demand_at_entry(project: &Project, sub: &Term<Sub>, params: &BTreeSet<String>, callee_demand: &CalleeDemand, only_paths_to_return: bool) -> Demand {
     let n = sub.term.blocks.len();
     let idx: BTreeMap<&Tid, usize> = sub.term.blocks.iter().enumerate().map(|(i, b)| (&b.tid, i)).collect();
+    ONLY_RETURN_PATHS.with(|c| c.set(only_paths_to_return));
     let gk: Vec<(Demand, BTreeSet<String>)> = sub.term.blocks.iter().map(|b| block_gen_kill(project, b, params, callee_demand)).collect();
+    ONLY_RETURN_PATHS.with(|c| c.set(false));
     // successors through jump edges only: calls end the search (all parameter registers are clobbered)
     let mut succ: Vec<Vec<usize>> = vec![vec![]; n];
     for (i, b) in sub.term.blocks.iter().enumerate() {
@@ -612,12 +642,29 @@ pub fn check_case(case: &Case, ctx: &mut Ctx) -> CaseResult {
         }
         callee_demand = next;
     }
+    // the same fixpoint without the conditions of conditional returns (classification of the open finding)
+    let mut callee_demand_alt: CalleeDemand = BTreeMap::new();
+    SKIP_COND_BEFORE_RETURN.with(|c| c.set(true));
+    loop {
+        let mut next: CalleeDemand = BTreeMap::new();
+        for (tid, s) in project.program.term.subs.iter() {
+            let d = demand_at_entry(&project, s, &params, &callee_demand_alt, true);
+            next.insert(tid.clone(), d.keys().cloned().collect());
+        }
+        if next == callee_demand_alt {
+            break;
+        }
+        callee_demand_alt = next;
+    }
+    SKIP_COND_BEFORE_RETURN.with(|c| c.set(false));
     let mut any_nontrivial = false;
     for (tid, s) in project.program.term.subs.iter() {
         if tid.is_artificial_sink_sub() {
             continue;
         }
         let dem = demanded(&project, s, &params, &callee_demand);
+        // what the function itself reads plus what its callees read apart from conditional-return conditions
+        let dem_alt = demanded(&project, s, &params, &callee_demand_alt);
         let sig = match sigs.get(tid) {
             Some(s) => s,
             None => return ctx.report("C14:no-signature-for-function", format!("function {} has no signature", tid)),
@@ -642,7 +689,11 @@ pub fn check_case(case: &Case, ctx: &mut Ctx) -> CaseResult {
             if !reported.contains(r) {
                 // classify by the (sorted) set of use kinds through which the register is demanded
                 let ks: Vec<&str> = kinds.iter().copied().collect();
-                let sig_kind = if ks.len() == 1 { ks[0].to_string() } else { ks.join("+") };
+                let mut sig_kind = if ks.len() == 1 { ks[0].to_string() } else { ks.join("+") };
+                if !dem_alt.contains_key(r) {
+                    // only demanded because a callee reads it in the condition of a conditional return
+                    sig_kind = "read-by-internal-callee:only-in-the-condition-of-a-conditional-return".to_string();
+                }
                 ctx.report(
                     format!("C14:missed-parameter:{}", sig_kind),
                     format!("function {}: register {} is read before being overwritten (first uses: {:?}) but is not a reported parameter {:?}\n{}", tid, r, kinds, reported, project.program.term),
